@@ -47,7 +47,10 @@ impl<'a> PyOp<'a, SnmpOid<'a>> for OpGetNext {
                         }
                         // v1 may return Null at end of mib
                         match &var.value {
-                            SnmpValue::EndOfMibView | SnmpValue::Null => {
+                            SnmpValue::EndOfMibView
+                            | SnmpValue::Null
+                            | SnmpValue::NoSuchObject
+                            | SnmpValue::NoSuchInstance => {
                                 Err(PyStopAsyncIteration::new_err("stop"))
                             }
                             value => Ok(PyTuple::new(
